@@ -74,7 +74,7 @@ def run(ctx):
             op = VParallelAdvection([None, None, None, v], basis, c, mode)
             # the same operator object serves the whole sequence of calls; it contains runs with the SAME speed and different
             # time steps (and the same time step with different speeds): a step must depend on its arguments only
-            plan = [(s8, rng.choice([0.5, 1.0, 2.0])) for s8 in (shifts8[:6 if quick else len(shifts8)] + [8 * width])]
+            plan = [(s8, rng.choice([0.5, 1.0, 2.0])) for s8 in (shifts8 + [8 * width])]        # incl. shifts of more than one and more than three domain widths
             plan += [(8, 1.0), (4, 0.5), (0, 0.0), (16, 2.0), (-12, -1.5), (-6, -0.75)]      # speed 8h/1 = 4h/0.5 = 16h/2: same c, other dt
             for s8, dt in plan:
                 cdt = Fr(s8, 8)                    # in cells
